@@ -5,7 +5,7 @@ import os, re, shutil, subprocess, sys, tempfile
 sys.path.insert(0, "/verif")
 from mutants.catalog import MUTANTS
 
-def run(ids=None, jobs=8):
+def run(ids=None, jobs=2):
     from concurrent.futures import ThreadPoolExecutor
     todo = [m for m in MUTANTS if not ids or m["id"] in ids]
     def one(m):
@@ -18,7 +18,7 @@ def run(ids=None, jobs=8):
                 return m["id"], "STALE", "pattern not found"
             open(p, "w").write(s.replace(m["old"], m["new"], 1))
             env = dict(os.environ, PVC_REPO=d)
-            out = subprocess.run(["python3-vt", "/verif/dev.py"] + m["funcs"], capture_output=True, text=True, env=env, timeout=1800)
+            out = subprocess.run(["python3-vt", "/verif/dev.py", "--fast"] + m["funcs"], capture_output=True, text=True, env=env, timeout=1800)
             failed = re.findall(r"\[(?:unknown|failed)\] (\S+)", out.stdout)
             if "Traceback" in out.stderr:
                 return m["id"], "ERROR", out.stderr.strip().splitlines()[-1]
